@@ -18,7 +18,7 @@ RULE = ("the small-scope table family of C02 plus write-only areas (flag and mis
 EXHAUSTIVE = {"quick": True, "thorough": True}
 ASSUMPTIONS = ["model and address-arithmetic assumptions as for C01", "the iteration callback is a script of return values (pure)"]
 TRUSTED = ["correspondence harness harness/h_regtable.c + tools/lib/vf.py"]
-DESIGN_REF = "DESIGN.md section 8, C03"
+DESIGN_REF = "DESIGN.md section 0.2 (as built) and section 8, C03"
 TECHNIQUE = "Lean 4 proofs over the register-table model (block read = flat address space, zero for unreadable areas, first unmapped address; iteration visits exactly the overlapping registers in order) + exhaustive windows in the differential correspondence"
 LEVEL_TEXT = ("Machine-checked proof over the Lean model: a block read of n atoms succeeds exactly when all n addresses are mapped, returns for every address the atom stored "
               "there (zero for areas that are not readable), reports the first unmapped address otherwise, and a zero-length read succeeds; range iteration visits exactly "
